@@ -23,8 +23,14 @@ package main
 // therefore chosen by the case, not by the scheduler.
 
 import (
+	"bufio"
+	"bytes"
 	"context"
+	"encoding/json"
 	"fmt"
+	"os"
+	"os/exec"
+	"strings"
 	"time"
 
 	"github.com/high-moctane/mocrelay"
@@ -287,4 +293,100 @@ func stripMergeOutputs(c *mCase) {
 	for i := range c.Steps {
 		c.Steps[i].Out = nil
 	}
+}
+
+// ---- process isolation ---------------------------------------------------
+//
+// A panic inside one of the session's own goroutines (handleSend, handleRecv,
+// a forwarder) cannot be recovered by the harness: it kills the process.  The
+// cases are therefore executed by a worker process (this binary again, with
+// MERGE_WORKER=1, cases on stdin, one result line per case on stdout, written
+// as soon as the case is over).  When the worker dies, the case it was running
+// is recorded with Fail = "crash: ..." and a new worker continues with the
+// next case.
+
+func mergeWorkerMode() bool { return os.Getenv("MERGE_WORKER") == "1" }
+
+// mergeWorker: the worker side.
+func mergeWorker() {
+	in := bufio.NewScanner(os.Stdin)
+	in.Buffer(make([]byte, 1<<20), 1<<28)
+	w := bufio.NewWriter(os.Stdout)
+	for in.Scan() {
+		if len(in.Bytes()) == 0 {
+			continue
+		}
+		var c mCase
+		if err := json.Unmarshal(in.Bytes(), &c); err != nil {
+			common.Fatalf("worker: bad case: %v", err)
+		}
+		stripMergeOutputs(&c)
+		runMerge(&c)
+		b, _ := json.Marshal(c)
+		w.Write(b)
+		w.WriteByte('\n')
+		w.Flush()
+	}
+}
+
+// runMergeAll runs the cases in worker processes and returns them with their
+// observations filled in.
+func runMergeAll(sub string, cases []mCase) []mCase {
+	res := make([]mCase, 0, len(cases))
+	start := 0
+	for start < len(cases) {
+		cmd := exec.Command(os.Args[0], sub, "-out", os.DevNull)
+		cmd.Env = append(os.Environ(), "MERGE_WORKER=1")
+		var input bytes.Buffer
+		for i := start; i < len(cases); i++ {
+			c := cases[i]
+			stripMergeOutputs(&c)
+			b, _ := json.Marshal(c)
+			input.Write(b)
+			input.WriteByte('\n')
+		}
+		cmd.Stdin = &input
+		var stderr bytes.Buffer
+		cmd.Stderr = &stderr
+		stdout, err := cmd.StdoutPipe()
+		if err != nil {
+			common.Fatalf("cannot start worker: %v", err)
+		}
+		if err := cmd.Start(); err != nil {
+			common.Fatalf("cannot start worker: %v", err)
+		}
+		sc := bufio.NewScanner(stdout)
+		sc.Buffer(make([]byte, 1<<20), 1<<28)
+		got := 0
+		for sc.Scan() {
+			var c mCase
+			if err := json.Unmarshal(sc.Bytes(), &c); err != nil {
+				break
+			}
+			res = append(res, c)
+			got++
+		}
+		werr := cmd.Wait()
+		start += got
+		if start >= len(cases) {
+			break
+		}
+		// the worker died while running cases[start]
+		c := cases[start]
+		stripMergeOutputs(&c)
+		for i := range c.Steps {
+			c.Steps[i].Out = []mMsg{}
+		}
+		msg := strings.TrimSpace(stderr.String())
+		if k := strings.IndexByte(msg, '\n'); k >= 0 {
+			msg = msg[:k]
+		}
+		if msg == "" && werr != nil {
+			msg = werr.Error()
+		}
+		c.Fail = "crash: " + msg
+		res = append(res, c)
+		start++
+	}
+	return res
 }
